@@ -120,6 +120,17 @@ CHECKS = {
              "single-segment replacement are checked on each.",
         note="The layout family is enumerated exhaustively (syntactic bound); only the heuristic has numeric inputs for the "
              "solver. Layouts outside the family are outside the claim."),
+    "C10": dict(
+        level="other", design="5/C10", engine="pysym kernel obligations + budgeted pipeline runs + fault injection",
+        technique="symbolic execution (AST -> z3) of the arithmetic kernel for raise paths and integer-size obligations; "
+                  "budgeted runs and fault injection for what cannot be encoded",
+        text="For all operands in [0,2^256) z3 decides that evaluate_expression, evaluate_expression_ter and apply_transform "
+             "(executed from their current source) neither raise nor build integers beyond a stated size. Whole-pipeline "
+             "termination cannot be encoded: stress blocks (boundary constants for EXP/shifts/division, NOT/ISZERO chains, 17+ "
+             "live values, rule pairs) run through the real optimize_asm_contract under four option sets within a CPU budget, "
+             "and an injected analysis fault must cost exactly the marked block in a two-block contract and a document.",
+        note="Only the kernel part is a solver verdict over all inputs; budgets and containment are exercised, not proved. "
+             "Fault injection rebinds ir_block.evm2rbr_compiler inside the harness process (listed as a stub)."),
     "C11": dict(
         level="translation_validation", design="5/C11", engine="E1 EVM-SMT on replayed logs + fresh-process round trip",
         technique="bounded-exhaustive tamper space; every log the real replay accepts is decided by SMT block equivalence",
